@@ -12,7 +12,8 @@
    m := spec_run ops is the prefix map after the same history. *)
 From Coq Require Import List Bool ZArith Permutation NArith.
 Import ListNotations.
-From BioVerif Require Import Lib.BitPfx Model.Trie Spec.TrieSpec Proofs.TrieProofs.
+From BioVerif Require Import Lib.BitPfx Model.Trie Model.TrieRaw Spec.TrieSpec Proofs.TrieProofs
+  Proofs.TrieRawFacts.
 
 Section C01.
   Variable P : Type.
@@ -81,6 +82,17 @@ Print Assumptions C01_dump.
 Print Assumptions C01_count.
 Print Assumptions C01_spec_is_a_map.
 Print Assumptions C01_refines.
+
+(* Why "canonical prefixes" is an assumption and not a convenience: the same trie code fed with
+   Go prefixes whose host bits are set (Model/TrieRaw.v, IPv4; tied to the code by the "rn" stream
+   of the correspondence check) is NOT a prefix map.  After AddPath(10.0.0.0/8), AddPath(10.0.0.1/8)
+   the first route cannot be found any more, the dump lists one route and the count says two. *)
+Theorem C01_noncanonical_refuted :
+  exists p1 p2 : rpfx, p1 <> p2 /\
+    let t := r_run N N.eqb [Add _ _ p1 1%N; Add _ _ p2 2%N] in
+    rt_get N t p1 = None /\ rt_dump N t = [(p2, [2%N])] /\ rt_count N t = 2%Z.
+Proof. exact (ex_intro _ ten_slash8 (ex_intro _ ten_one_slash8 noncanonical_breaks_trie)). Qed.
+Print Assumptions C01_noncanonical_refuted.
 
 (* Non-vacuity, on the instance the correspondence check runs (paths = N):
    10/2 stored, 1011/4 and 1000/4 stored below it (the trie creates a dummy 10/2.. supernet),
